@@ -91,3 +91,102 @@ pub fn run(out: &mut Out, rng: &mut Rng, thorough: bool) {
         }
     }
 }
+
+// ------------------------------------------------------------------------------------------------
+// op `bigcell` (C15): ONE cell with more than ten thousand faces (a generator in the middle of a dense spherical shell).
+// Index widths, cumulative offsets and per-face storage are exercised far beyond what any other input reaches.  The cell is
+// too large for the exact oracle, so the invariants of the property are evaluated here, on the implementation's own output,
+// and the record carries their outcome (integers and a few floats).
+// ------------------------------------------------------------------------------------------------
+fn bigcell_one(nshell: usize, rng: &mut Rng) -> String {
+    use glam::DVec3;
+    let c = DVec3::splat(0.5);
+    let mut gens = vec![c];
+    // Fibonacci lattice on the sphere + jitter: evenly spread, every shell generator is a neighbour of the centre
+    let golden = std::f64::consts::PI * (3.0 - 5f64.sqrt());
+    for i in 0..nshell {
+        let z = 1.0 - 2.0 * (i as f64 + 0.5) / nshell as f64;
+        let r = (1.0 - z * z).sqrt();
+        let a = golden * i as f64;
+        let d = DVec3::new(r * a.cos(), r * a.sin(), z);
+        gens.push(c + d * 0.3 * (1.0 + 1e-4 * (rng.f64() - 0.5)));
+    }
+    let mut mask = vec![false; gens.len()];
+    mask[0] = true;
+    let vi = VoronoiIntegrator::build(&gens, Some(&mask), DVec3::ZERO, DVec3::ONE, meshless_voronoi::Dimensionality::ThreeD, false);
+    let wf = vi.with_faces();
+    let cell = wf.cells_iter().next().expect("central cell");
+    let np = cell.clipping_planes.len();
+    let nv = cell.vertices.len();
+    let nf = cell.face_count();
+    let mut per_vertex = vec![0usize; nv];
+    let (mut onplane_bad, mut cycle_bad, mut range_bad, mut acc_bad, mut halfedges) = (0usize, 0usize, 0usize, 0usize, 0usize);
+    let mut planes_seen = std::collections::HashSet::new();
+    let ai = cell.compute_face_integrals::<(), AreaCentroidIntegral>(());
+    let mut area_dev: f64 = 0.;
+    let mut area_sum = 0.;
+    for f in 0..nf {
+        let pl = cell.clipping_plane(f);
+        let pidx = cell.clipping_planes.iter().position(|h| std::ptr::eq(&h.plane, pl));
+        let pidx = match pidx {
+            Some(p) => p,
+            None => {
+                acc_bad += 1;
+                continue;
+            }
+        };
+        if !planes_seen.insert(pidx) {
+            acc_bad += 1;
+        }
+        if cell.neighbour(f) != cell.clipping_planes[pidx].right_idx || cell.shift(f) != cell.clipping_planes[pidx].shift {
+            acc_bad += 1;
+        }
+        let vs: Vec<usize> = cell.face_vertices(f).to_vec();
+        if vs.len() != cell.face_vertex_count(f) {
+            acc_bad += 1;
+        }
+        halfedges += vs.len();
+        let mut poly = DVec3::ZERO;
+        for (k, &v) in vs.iter().enumerate() {
+            if v >= nv {
+                range_bad += 1;
+                continue;
+            }
+            per_vertex[v] += 1;
+            if !cell.vertices[v].dual.contains(&pidx) {
+                onplane_bad += 1;
+            }
+            let w = vs[(k + 1) % vs.len()];
+            if w < nv {
+                // consecutive vertices of a face share a second plane
+                let shared = cell.vertices[v].dual.iter().filter(|p| **p != pidx && cell.vertices[w].dual.contains(p)).count();
+                if shared != 1 {
+                    cycle_bad += 1;
+                }
+                poly += (cell.vertices[v].loc - cell.loc).cross(cell.vertices[w].loc - cell.loc);
+            }
+        }
+        // polygon area (vector area projected on the plane normal; counter-clockwise about the inward normal = positive)
+        let a_poly = 0.5 * poly.dot(pl.n);
+        // the face integral with the same plane: integrals come in face order
+        if f < ai.len() {
+            let a_int = ai[f].integral().area;
+            area_dev = area_dev.max((a_poly - a_int).abs());
+            area_sum += a_int;
+        }
+    }
+    let inc_bad = per_vertex.iter().filter(|&&k| k != 3).count();
+    let euler = nv as i64 - (halfedges / 2) as i64 + nf as i64;
+    format!(
+        "BIG np {} nv {} nf {} ai {} euler {} incidence_bad {} onplane_bad {} cycle_bad {} range_bad {} accessor_bad {} area_dev {} area_sum {}",
+        np, nv, nf, ai.len(), euler, inc_bad, onplane_bad, cycle_bad, range_bad, acc_bad, fx(area_dev), fx(area_sum)
+    )
+}
+
+pub fn run_bigcell(out: &mut Out, rng: &mut Rng, thorough: bool) {
+    for &n in if thorough { &[700usize, 12000, 23000][..] } else { &[700usize, 11500][..] } {
+        let mut r2 = rng.fork(n as u64);
+        let res = guarded(std::panic::AssertUnwindSafe(move || bigcell_one(n, &mut r2))).unwrap_or_else(|e| format!("WFPANIC {}", e));
+        out.rec("bigcell", "shell3r_unit_z", &format!("{}", n), &res);
+    }
+}
